@@ -59,7 +59,11 @@ def run(cmd, timeout=None, cwd=None, env=None, input=None, check=False):
 # 1. building the code under test
 
 def build_dir(flavour="rel"):
-    return os.path.join(BUILD_ROOT, flavour)
+    # one build tree per location of this framework: a copy of /verif elsewhere (e.g. a snapshot)
+    # must not reuse a CMake cache configured for another source directory
+    if VERIF == "/verif":
+        return os.path.join(BUILD_ROOT, flavour)
+    return os.path.join(BUILD_ROOT, flavour + "-" + hashlib.sha1(VERIF.encode()).hexdigest()[:8])
 
 
 FLAVOURS = {
@@ -79,6 +83,12 @@ FLAVOURS = {
              "-DCMAKE_CXX_FLAGS=-O1 -g -fsanitize=address,bounds,signed-integer-overflow,integer-divide-by-zero,null,pointer-overflow,vla-bound,return,unreachable -fno-sanitize-recover=all -fno-omit-frame-pointer -D_GLIBCXX_ASSERTIONS",
              "-DCMAKE_C_FLAGS=-O1 -g -fsanitize=address",
              "-DCMAKE_EXE_LINKER_FLAGS=-fsanitize=address,undefined"],
+    # AddressSanitizer alone (the "asan" flavour also aborts on UBSan's signed-shift report in
+    # preprocess/base64.cc, which is C09's modelled 32-bit wrap, before b64filter does anything)
+    "asan_only": ["-DCMAKE_BUILD_TYPE=RelWithDebInfo",
+                  "-DCMAKE_CXX_FLAGS=-O1 -g -fsanitize=address -fno-omit-frame-pointer",
+                  "-DCMAKE_C_FLAGS=-O1 -g -fsanitize=address",
+                  "-DCMAKE_EXE_LINKER_FLAGS=-fsanitize=address"],
     "tsan": ["-DCMAKE_BUILD_TYPE=RelWithDebInfo",
              "-DCMAKE_CXX_FLAGS=-O1 -g -fsanitize=thread",
              "-DCMAKE_EXE_LINKER_FLAGS=-fsanitize=thread"],
@@ -767,6 +777,42 @@ def find_culprit(exe, lines, timeout=5, mem_mb=2048):
             return bad, st1, e1[-300:]
         lo = bad + 1
     return None
+
+
+def run_staged(argv, parts, pause=1.0, timeout=60, mem_mb=2048, env=None):
+    """Run a tool whose stdin arrives in several parts with a pause between them (a slow
+    producer): the tool's threads then catch up with each other at the part boundaries.
+    stdout/stderr go to temporary files so nothing can block.  Returns (status, stdout, stderr)."""
+    import signal
+    import tempfile
+    with tempfile.TemporaryFile() as fo, tempfile.TemporaryFile() as fe:
+        p = subprocess.Popen(argv, stdin=subprocess.PIPE, stdout=fo, stderr=fe, env=env, preexec_fn=_limits(mem_mb))
+        status = None
+        t_end = time.time() + timeout
+        try:
+            try:
+                for i, part in enumerate(parts):
+                    if i:
+                        time.sleep(pause)
+                    p.stdin.write(part)
+                    p.stdin.flush()
+                p.stdin.close()
+            except (BrokenPipeError, OSError):
+                pass                      # the tool died: its status tells
+            try:
+                status = p.wait(timeout=max(1, t_end - time.time()))
+            except subprocess.TimeoutExpired:
+                status = "timeout"
+        finally:
+            try:
+                os.killpg(p.pid, signal.SIGKILL)
+            except Exception:
+                pass
+            if status == "timeout":
+                p.wait()
+        fo.seek(0)
+        fe.seek(0)
+        return status, fo.read(), fe.read()
 
 
 # --------------------------------------------------------------------------
